@@ -140,6 +140,10 @@ def build(case: dict, d: Path) -> dict:
     elif o == "licenses_same_identifier":
         (root / "LICENSES" / "MIT.md").write_text("the same licence once more, as markdown\n")
         info["names"] = ["LICENSES/MIT.md", "LICENSES/MIT.txt"]
+    elif o == "covered_terminator_run":      # a tag line followed by a long run of comment terminators and more text
+        (root / "src" / "a.py").write_text("/* SPDX-FileCopyrightText: 2020 Jane Doe " + "*/" * 48 + " end of frame\n"
+                                           "/* Copyright 2021 John Roe " + "-->" * 48 + " and on\n"
+                                           "# SPDX-FileContributor: Some Body " + "]]" * 48 + " more\n")
     elif o == "license_dir_is_file":
         shutil.rmtree(root / "LICENSES")
         (root / "LICENSES").write_text("not a directory\n")
@@ -177,7 +181,10 @@ def run_case(case: dict) -> list:
             args = dict(commands(root, info, case["other"]))[name]
             projmodel.set_faults(info["faults"])
             try:
-                r = core.run_reuse(args) if not case.get("subprocess") else core.run_reuse_subprocess(args)
+                if case["other"] == "covered_terminator_run":      # may not terminate: a real process with a time limit
+                    r = core.run_reuse_subprocess(args, timeout=40)
+                else:
+                    r = core.run_reuse(args) if not case.get("subprocess") else core.run_reuse_subprocess(args)
             finally:
                 projmodel.set_faults(())
             text = (r["out"] or "") + (r["err"] or "")
@@ -234,11 +241,13 @@ def run(ctx: core.Ctx) -> int:
               "covered_nul_bytes": "valid", "covered_not_utf8": "valid", "covered_long_line": "valid", "covered_bad_expression": "valid",
               "covered_unreadable": "valid", "covered_vanishes": "valid", "licenseref_not_utf8": "valid", "license_dir_is_file": "grey",
               "template_bad_syntax": "grey", "dot_license_not_utf8": "valid", "licenses_same_identifier": "invalid",
-              "dep5_and_nested_toml": "invalid"}
+              "dep5_and_nested_toml": "invalid", "covered_terminator_run": "valid"}
     for o, cls in others.items():
         cmds = list(all_cmds) + (["convert-dep5"] if o.startswith("dep5") else [])
         if o in ("covered_unreadable", "covered_vanishes"):
             cmds = ["lint", "lint-json", "lint-lines", "spdx", "lint-file"]
+        if o == "covered_terminator_run":
+            cmds = ["lint", "spdx", "lint-file"]
         cases.append({"devs": [], "other": o, "class": cls, "cmds": cmds, "label": json.dumps(o)})
     for g in rnd.sample(gens, 8 if q else 40):        # the real executable on a sample
         cases.append({"devs": g["devs"], "other": "", "class": g["class"], "cmds": ["lint", "annotate"], "subprocess": True,
